@@ -284,13 +284,9 @@ package geom
 //@   trusted
 //@ func GeometryCollection.AppendWKT
 //@   trusted
-//@ func Point.MarshalJSON
-//@   trusted
 //@ func LineString.MarshalJSON
 //@   trusted
 //@ func Polygon.MarshalJSON
-//@   trusted
-//@ func MultiPoint.MarshalJSON
 //@   trusted
 //@ func MultiLineString.MarshalJSON
 //@   trusted
